@@ -128,7 +128,7 @@ func wellFormed(c Case) bool {
 
 // ---- generators -----------------------------------------------------------------------------------------------
 
-func pad32(x *big.Int) []byte { return common.LeftPadBytes(x.Bytes(), 32) }
+func pad32(x *big.Int) []byte    { return common.LeftPadBytes(x.Bytes(), 32) }
 func cat(parts ...[]byte) []byte { return bytes.Join(parts, nil) }
 func pow2(e uint, d int64) *big.Int {
 	x := new(big.Int).Lsh(big.NewInt(1), e)
